@@ -7,6 +7,7 @@ from .. import paths
 from ..core import FUNC, call_attr, calls_in, const, dotted, is_const, kwarg, norm, slice_parts, text, walk_local
 
 EXPLANATION = [
+    'C17.depth-balance: the SDP parser\'s nesting counter is restored on every normal exit of the recursive list parser (path counting).',
     'C17.feed-contained: every site that pushes received bytes into the HCI packet parser is inside try/except InvalidPacketError that lets the transport continue, or is a named plain event-loop callback where the escaping exception is only logged.',
     'C17.parser-reset: the push parser consumes what it needs, resets after emission and before raising on an unknown type byte, and contains sink exceptions (same rule as C02.push-parser).',
     'C17.response-routing: the HF reader queues a line as a command response only under `self.pending_command`, which execute_command clears in finally.',
@@ -554,7 +555,29 @@ def feed_contained(ctx, rule='C17.feed-contained'):
     R.check(n >= 6, rule, 'bumble.transport | parser feed sites', f'{n} call sites of parser.feed_data examined', f'only {n} feed sites found')
 
 
+
+def depth_balance(ctx, rule='C17.depth-balance'):
+    """The SDP parser's nesting counter returns to its entry value on every normal exit of the recursive step."""
+    R, p = ctx.r, ctx.p
+    fn = p.find('bumble.sdp.DataElementParser._list_from_bytes')
+    if fn is None:
+        R.bad(rule, 'bumble.sdp.DataElementParser._list_from_bytes', 'anchor missing')
+        return
+
+    class D(paths.Domain):
+        def event(self, node, v):
+            if isinstance(node, ast.AugAssign) and dotted(node.target) == 'self.depth' and is_const(node.value) and const(node.value) == 1:
+                return (v + (1 if isinstance(node.op, ast.Add) else -1),)
+            return (v,)
+    res = paths.run(fn, D(), 0)
+    bad = [f'{k} with depth {v:+d} ({" ".join(w)})' for k, st in res.items() if not k.startswith('raise') for v, w in st.items() if v != 0]
+    inc = [n for n in walk_local(fn) if isinstance(n, ast.AugAssign) and dotted(n.target) == 'self.depth']
+    R.check(len(inc) >= 2 and not bad, rule, 'bumble.sdp.DataElementParser._list_from_bytes | depth restored', 'every normal exit leaves self.depth as it found it',
+            'a path returns with the nesting counter still raised: the counter leaks with every such container and a flat, well-formed element is eventually rejected as "too deeply nested"', p.loc(fn), bad[:3])
+
+
 RULES = [
+    ('C17.depth-balance', depth_balance),
     ('C17.feed-contained', feed_contained),
     ('C17.parser-reset', parser_reset),
     ('C17.response-routing', response_routing),
